@@ -140,11 +140,28 @@ Proof. exact exit_clears_all_old_refuted. Qed.
 Print Assumptions C06_exit_clears_all_old_refuted.
 (* the witness of e967622: a subkey attached with add_subkey inside the scope keeps its secret integers when the scope ends *)
 Theorem C06_subkey_added_in_scope_survives : forall (cfb_enc cfb_dec : prim4) (sha1 : bytes -> bytes) (s2k : s2kfn) st ms chk o s,
-  exit_op o -> k_scopes st = true :: s ->
+  exit_op o -> k_scopes st = true :: s -> primary_unlocked (k_pkts st) = true ->
   fst (step cfb_enc cfb_dec sha1 s2k (fst (step cfb_enc cfb_dec sha1 s2k st (OAddSub ms chk))) o) =
   {| k_pkts := map relock (k_pkts st) ++ [{| p_blob := None; p_fields := ms; p_chk := chk |}]; k_scopes := s |}.
 Proof. exact subkey_added_in_scope_survives. Qed.
 Print Assumptions C06_subkey_added_in_scope_survives.
+(* add_subkey on a key whose primary is unlocked (or not protected) attaches the unprotected packet; on a locked key it is refused
+   and -- since repair 163b208 -- leaves the key as it was (before, the packet stayed attached without a binding signature) *)
+Theorem C06_add_sub_unlocked : forall (cfb_enc cfb_dec : prim4) (sha1 : bytes -> bytes) (s2k : s2kfn) st ms chk,
+  primary_unlocked (k_pkts st) = true ->
+  step cfb_enc cfb_dec sha1 s2k st (OAddSub ms chk) =
+  ({| k_pkts := k_pkts st ++ [{| p_blob := None; p_fields := ms; p_chk := chk |}]; k_scopes := k_scopes st |}, BDone).
+Proof. exact add_sub_unlocked. Qed.
+Print Assumptions C06_add_sub_unlocked.
+Theorem C06_add_sub_locked_unchanged : forall (cfb_enc cfb_dec : prim4) (sha1 : bytes -> bytes) (s2k : s2kfn) st ms chk,
+  primary_unlocked (k_pkts st) = false -> step cfb_enc cfb_dec sha1 s2k st (OAddSub ms chk) = (st, BRefused).
+Proof. exact add_sub_locked_unchanged. Qed.
+Print Assumptions C06_add_sub_locked_unchanged.
+Theorem C06_add_sub_old_refuted : forall (cfb_enc cfb_dec : prim4) (sha1 : bytes -> bytes) (s2k : s2kfn),
+  exists st ms chk, primary_unlocked (k_pkts st) = false /\
+  k_pkts (fst (add_sub_old st ms chk)) <> k_pkts (fst (step cfb_enc cfb_dec sha1 s2k st (OAddSub ms chk))).
+Proof. exact add_sub_old_refuted. Qed.
+Print Assumptions C06_add_sub_old_refuted.
 (* over ANY history without protect / add_subkey (enter with any passphrase, exits, exceptions, sign, decrypt, export, re-import):
    no at-rest form changes and key material that is not protected is never touched *)
 Theorem C06_unprotected_untouched : forall (cfb_enc cfb_dec : prim4) (sha1 : bytes -> bytes) (s2k : s2kfn) ops st,
